@@ -97,6 +97,7 @@ func getSwapOutReceiverStates() States {
 			Events: Events{
 				Event_OnCsvPassed:         State_SwapOutReceiver_ClaimSwapCsv,
 				Event_OnCoopCloseReceived: State_SwapOutReceiver_ClaimSwapCoop,
+				Event_OnClaimInvoicePaid:  State_ClaimedPreimage,
 			},
 		},
 		State_SwapOutReceiver_ClaimSwapCsv: {
